@@ -91,21 +91,32 @@ fn walk_symbols_with_control_flow<'a, V, F>(
 where
     F: FnMut(Symbol<'a>) -> ControlFlow<V>,
 {
+    // Visit a type and (recursively) all its generic types
+    fn visit_type<'a, V, F>(type_: &'a ast::Type, f: &mut F) -> ControlFlow<V>
+    where
+        F: FnMut(Symbol<'a>) -> ControlFlow<V>,
+    {
+        if type_.kind == ast::TypeKind::Array {
+            // For arrays, start with the array element type, then on the array itself
+            type_
+                .generic_types
+                .iter()
+                .try_for_each(|t| visit_type(t, f))?;
+            f(Symbol::Type(type_))?;
+        } else {
+            // For other types, start with the main type and then its generic types
+            f(Symbol::Type(type_))?;
+            type_
+                .generic_types
+                .iter()
+                .try_for_each(|t| visit_type(t, f))?;
+        }
+        ControlFlow::Continue(())
+    }
+
     macro_rules! visit_type_helper {
         ($t:expr, $f:ident) => {
-            if $t.kind == ast::TypeKind::Array {
-                // For arrays, start with the array element type, then on the array itself
-                $t.generic_types
-                    .iter()
-                    .try_for_each(|t| $f(Symbol::Type(t)))?;
-                $f(Symbol::Type($t))?;
-            } else {
-                // For other types, start with the main type and then its generic types
-                $f(Symbol::Type($t))?;
-                $t.generic_types
-                    .iter()
-                    .try_for_each(|t| $f(Symbol::Type(t)))?;
-            }
+            visit_type($t, &mut $f)?;
         };
     }
 
@@ -208,17 +219,20 @@ fn range_contains(range: &ast::Range, line_col: (usize, usize)) -> bool {
 
 /// Traverse the AST and provide the types to the given closure
 pub fn walk_types<F: FnMut(&ast::Type)>(ast: &ast::Aidl, mut f: F) {
-    let mut visit_type_helper = move |type_: &ast::Type| {
+    // Visit a type and (recursively) all its generic types
+    fn visit_type<F: FnMut(&ast::Type)>(type_: &ast::Type, f: &mut F) {
         if type_.kind == ast::TypeKind::Array {
             // For arrays, start with the array element type, then on the array itself
-            type_.generic_types.iter().for_each(&mut f);
+            type_.generic_types.iter().for_each(|t| visit_type(t, f));
             f(type_);
         } else {
             // For other types, start with the main type and then its generic types
             f(type_);
-            type_.generic_types.iter().for_each(&mut f);
+            type_.generic_types.iter().for_each(|t| visit_type(t, f));
         }
-    };
+    }
+
+    let mut visit_type_helper = move |type_: &ast::Type| visit_type(type_, &mut f);
 
     match ast.item {
         ast::Item::Interface(ref i) => {
@@ -249,10 +263,13 @@ pub fn walk_types<F: FnMut(&ast::Type)>(ast: &ast::Aidl, mut f: F) {
 }
 
 pub(crate) fn walk_types_mut<F: FnMut(&mut ast::Type)>(ast: &mut ast::Aidl, mut f: F) {
-    let mut visit_type_helper = move |type_: &mut ast::Type| {
+    // Visit a type and (recursively) all its generic types
+    fn visit_type<F: FnMut(&mut ast::Type)>(type_: &mut ast::Type, f: &mut F) {
         f(type_);
-        type_.generic_types.iter_mut().for_each(&mut f);
-    };
+        type_.generic_types.iter_mut().for_each(|t| visit_type(t, f));
+    }
+
+    let mut visit_type_helper = move |type_: &mut ast::Type| visit_type(type_, &mut f);
 
     match ast.item {
         ast::Item::Interface(ref mut i) => {
